@@ -49,6 +49,11 @@ def gen_op(rng, root, depth, dflt, n, alphabet, structural=False):
         return {"k": "ref", "p": [rng.randrange(-1, n + 1) for _ in range(ln)]}
     if k == "posref":
         return {"k": "posref", "at": path, "c": c}
+    if k == "refsp":
+        # reference insertion with a search-start shortcut; only legal shortcuts (the convention
+        # getPayload asserts: start_pos == 0 or coords[start_pos] <= coord)
+        legal = [0] + [i for i in range(1, len(f.coords)) if f.coords[i] <= c]
+        return {"k": "refsp", "at": path, "c": c, "sp": rng.choice(legal), "pos": rng.random() < 0.5}
     if k == "get":
         ln = rng.randrange(1, depth + 1)
         return {"k": "get", "p": [rng.randrange(-1, n + 1) for _ in range(ln)]}
@@ -170,7 +175,12 @@ def apply_op(root, depth, dflt, op):
             elif q == "or":
                 list(f | f)
             return "ok"
-        if k == "posref":
+        if k == "refsp":
+            if op["pos"]:
+                f.getPositionRef(op["c"], start_pos=op["sp"])
+            else:
+                f.getPayloadRef(op["c"], start_pos=op["sp"])
+        elif k == "posref":
             f.getPositionRef(op["c"])
         elif k == "append":
             f.append(op["c"], _val(op["v"], sub_depth, dflt))
